@@ -9,6 +9,7 @@
 From MLA Require Import Limit.
 From MLA Require Import Base Stream Blocks Reader LinearProofs Path PathDir PathProofs PathLinks PathDirProofs Pool PoolProofs Cli CliProofs
   CliExtract CliExtractProofs CliExtractOut SrcTie3Reader SrcTie3Linear SrcTie3CliCopy.
+From MLA Require SrcTie3Block.
 From MLAGen Require Src3d Src3l Src3x.
 From Coq Require Import Permutation ZifyBool ZifyNat ZifyN.
 Open Scope N_scope.
@@ -214,6 +215,7 @@ Section Tie.
     let dl := m_loop_d fuel s export ids acc in (Src3l.mkExport export (fst dl), snd dl).
   Proof.
     induction fuel as [|fuel IH]; intros s export ids acc Hids; cbn [Src3l.linear_extract_loop lx_loop_d]; [reflexivity|].
+    rewrite (SrcTie3Block.block_from_src S FNMAX TS TC TA TE s).
     destruct (pb s) as [s1 [blk|er|c]]; [|reflexivity|reflexivity].
     destruct blk as [id name|id l|id h|].
     - rewrite hm_contains_key_src. destruct (name_in export name) eqn:En.
